@@ -42,6 +42,10 @@ META = {
 }
 
 
+TINY_STENCILS = {3: [Fraction(-1, 10 ** 9), Fraction(0), Fraction(2, 10 ** 9)],
+                 5: [Fraction(-2, 10 ** 9), Fraction(-1, 10 ** 9), Fraction(0), Fraction(3, 2 * 10 ** 9), Fraction(2, 10 ** 9)]}
+
+
 def node_sets(m, seed):
     rng = np.random.default_rng(seed * 1000 + m)
     F = Fraction
@@ -77,6 +81,9 @@ def jobs(tier, seed):
     out.append(('integer-typed-nodes-witness', dict(kind='intwitness', m=5, family='', seed=seed)))
     for m in (2, 3, 6):
         out.append(('wrappers-m%d' % m, dict(kind='wrappers', m=m, family='uniform', seed=seed)))
+    for m in (3, 5):
+        # non-uniform stencils with tiny spacings around 0 (what a 'looks equidistant' shortcut would mistake for a classical stencil)
+        out.append(('wrappers-m%d-tiny' % m, dict(kind='wrappers', m=m, family='tiny-nonuniform', seed=seed)))
     return out
 
 
@@ -91,7 +98,7 @@ def run_job(job, kind, m, family, seed):
         if not job.confirm('integer-typed nodes / x0 give the exact rational weights (concrete runs)', not bad):
             job.violation('int', dict(key='C15:integer-typed-nodes', kind='intwitness', detail=bad[0]))
         return
-    return wrappers(job, fb, m)
+    return wrappers(job, fb, m, family or 'uniform')
 
 
 def int_witness_failures(fb):
@@ -221,8 +228,8 @@ def concrete(job, fb, m, family, seed):
     job.validated += 1
 
 
-def wrappers(job, fb, m):
-    nodes_q = node_sets(max(m, 5), 0)['uniform'][:m]
+def wrappers(job, fb, m, family='uniform'):
+    nodes_q = node_sets(max(m, 5), 0)['uniform'][:m] if family == 'uniform' else TINY_STENCILS[m]
     x0 = sn.real_var('x0')
     nodes = sn.SymArr([sn.const(v) for v in nodes_q])
     for n in range(m):
